@@ -118,7 +118,7 @@ func runC22(r *core.R) {
 	}
 	var cases []dcase
 	for _, k := range docgen.CryptoKinds {
-		for _, cont := range []string{"classic", "objstream"} {
+		for _, cont := range []string{"classic", "objstream", "indirect-lengths"} {
 			for _, a := range calgs {
 				for ui, u := range users {
 					for oi, o := range owners {
@@ -136,7 +136,7 @@ func runC22(r *core.R) {
 	r.Note("document_cases", len(cases))
 	plainViews := map[string]string{}
 	for _, k := range docgen.CryptoKinds {
-		for _, cont := range []string{"classic", "objstream"} {
+		for _, cont := range []string{"classic", "objstream", "indirect-lengths"} {
 			v, err := docView(docgen.CryptoDoc(k, "MARKER", cont), "", "")
 			if err != nil {
 				r.HarnessError("plain %s/%s: %v", k, cont, err)
@@ -341,7 +341,7 @@ func runC23(r *core.R) {
 	}
 	var cases []lcase
 	for _, k := range docgen.CryptoKinds {
-		for _, cont := range []string{"classic", "objstream"} {
+		for _, cont := range []string{"classic", "objstream", "indirect-lengths"} {
 			for _, a := range calgs {
 				for _, os := range []bool{false, true} {
 					for _, xs := range []bool{false, true} {
